@@ -814,9 +814,7 @@ theorem planPhases_of_unwrap (o : Oracles) (c : MCtx) (d : LokiDb) (q : MetricQu
       exact stepStage_pred _ _ _ (LabelledKL o c.toCtx d (MetricQuery.range r).rangeAgg.sel) hlab
     | agg a => simp [MetricQuery.agg?] at hagg
   | some a =>
-    have hok' : (chosenGrouping a.byPrefix a.bySuffix).isSome = true := by
-      unfold aggOk at hok; rw [hagg] at hok; exact hok
-    obtain ⟨g, hg⟩ := Option.isSome_iff_exists.mp hok'
+    obtain ⟨g, hg⟩ : ∃ g, aggGrouping a = g := ⟨_, rfl⟩
     have hA : aggPhase false c q (rangeState false c q) =
         cmpOpt a.cmp (aggSel a.fn true (byWithoutSimple (uwId q.rangeAgg) g (rangeState false c q).sel)) := by
       unfold aggPhase
@@ -826,11 +824,12 @@ theorem planPhases_of_unwrap (o : Oracles) (c : MCtx) (d : LokiDb) (q : MetricQu
         | some a => cmpStage a.cmp (aggStage o c.toCtx d q.rangeAgg.sel a p0)
         | none => p0) = cmpStage a.cmp (aggCore o a.fn (p0.map (regroupL o g))) := by
       rw [hagg]
-      simp only [aggStage_eq, hg, Option.getD_some]
+      simp only [aggStage_eq]
       congr 2
       apply List.map_congr_left
       intro p hp
-      exact regroupPt_eq_regroupL o c.toCtx d q.rangeAgg.sel g p (hlab p hp)
+      rw [← hg]
+      exact regroupPt_eq_regroupL o c.toCtx d q.rangeAgg.sel _ p (hlab p hp)
     rw [hA, upperPts_of o c d q p0 _ hU1, byWithoutSimple_eq]
     have hbw : Alias.named ("pre_by_without_" ++ toString (uwId q.rangeAgg + 1)) ∉ uwAls q.rangeAgg := by
       unfold uwAls uwId
@@ -973,18 +972,12 @@ theorem supportedU_spec (q : MetricQuery) (h : supportedU q = true) :
       1000000 ∣ q.rangeAgg.durNs ∧ 0 < q.rangeAgg.durNs ∧ q.rangeAgg.sel.matchers.length ≤ 63 := by
   unfold supportedU at h
   simp only [Bool.and_eq_true, decide_eq_true_eq] at h
-  obtain ⟨⟨⟨⟨h1, h2⟩, h3⟩, h4⟩, h5⟩ := h
-  refine ⟨?_, ?_, Nat.dvd_of_mod_eq_zero h3, h4, h5⟩
+  obtain ⟨⟨⟨h1, h3⟩, h4⟩, h5⟩ := h
+  refine ⟨?_, trivial, Nat.dvd_of_mod_eq_zero h3, h4, h5⟩
   · cases hk : q.rangeAgg.kind with
     | lra fn => rw [hk] at h1; cases h1
     | unwrap fn l =>
       exact ⟨fn, l, rfl⟩
-  · unfold aggOk
-    cases ha : q.agg? with
-    | none => trivial
-    | some a =>
-      rw [ha] at h2
-      exact h2
 
 theorem planMetric_unwrap_supported (o : Oracles) (c : MCtx) (hn : c.namesOk) (d : LokiDb) (q : MetricQuery)
     (hsup : supportedU q = true) :
